@@ -2008,17 +2008,46 @@ func checkHeaderReservesLengthPrefix(c *Ctx, rule string) {
 			if !ok || !isByteSlice(ms.Type()) {
 				return
 			}
-			// the buffer that is appended to and returned (not a scratch copy)
-			grows := false
-			for _, r := range *ms.Referrers() {
-				if cc := callOf(r); cc != nil {
-					grows = true
+			// the buffer that becomes the first result — the header, into whose first four bytes the length is written
+			// (a separate payload buffer, the second result of marshalPacket, has no prefix)
+			isHeader := false
+			for _, rin := range findInstrs(fn, isReturn) {
+				r := rin.(*ssa.Return)
+				if len(r.Results) == 0 {
+					continue
 				}
-				if _, isPhi := r.(*ssa.Phi); isPhi {
-					grows = true
+				seen := map[ssa.Value]bool{}
+				var back func(v ssa.Value, d int) bool
+				back = func(v ssa.Value, d int) bool {
+					if v == nil || seen[v] || d > 40 {
+						return false
+					}
+					seen[v] = true
+					switch x := v.(type) {
+					case *ssa.MakeSlice:
+						return x == ms
+					case *ssa.Call:
+						if len(x.Call.Args) > 0 && isByteSlice(x.Call.Args[0].Type()) {
+							return back(x.Call.Args[0], d+1)
+						}
+					case *ssa.Slice:
+						return back(x.X, d+1)
+					case *ssa.Phi:
+						for _, e := range x.Edges {
+							if back(e, d+1) {
+								return true
+							}
+						}
+					case *ssa.Extract:
+						return back(x.Tuple, d+1)
+					}
+					return false
+				}
+				if back(r.Results[0], 0) {
+					isHeader = true
 				}
 			}
-			if !grows {
+			if !isHeader {
 				return
 			}
 			n++
